@@ -515,9 +515,47 @@ def extract(build, ir_text=None):
             if c in A and c not in R and c in fdefs and c != "janet_sandbox":
                 R.add(c)
                 todo.append(c)
-    M.slice = [n for n in mod.order if n in R]
+    base_slice = [n for n in mod.order if n in R]
+    # ---- parameter-keyed functions: Cap.paramModes (reviewed: `need` depends on the parameter) + helpers that forward an
+    # i32 parameter to janet_sandbox_assert (`static void need_cap(uint32_t cap) { janet_sandbox_assert(cap); }`), found here.
+    # Both kinds: not address-taken, parameter spilled once and never assigned, every call site passes an integer constant.
+    # Each is CLONED per constant (one graph function per (function, constant)), so its postcondition is per constant.
+    for pf in M.param_modes:
+        if pf not in fdefs:
+            raise ExtractError("Cap.paramModes: function %s does not exist" % pf)
+    M.param_all = dict(M.param_modes)
+    M.param_auto = {}
+    for n in base_slice:
+        if n in M.param_all or n in M.escaping:
+            continue
+        ai = _auto_param(fdefs[n])
+        if ai is not None:
+            M.param_all[n] = ai
+            M.param_auto[n] = ai
+    consts = {pf: set() for pf in M.param_all}
+    for n in base_slice:
+        for b in fdefs[n].blocks:
+            for i in b.insts:
+                if i.kind == "call" and i.callee in M.param_all:
+                    ai = M.param_all[i.callee]
+                    if ai >= len(i.const_args) or i.const_args[ai] is None or i.const_args[ai] < 0:
+                        raise ExtractError("%s: argument %d of %s (parameter-keyed function%s) is not a non-negative integer constant" % (
+                            n, ai, i.callee, " of Cap.paramModes" if i.callee in M.param_modes else ": it forwards the parameter to janet_sandbox_assert"))
+                    consts[i.callee].add(i.const_args[ai])
+    M.slice, M.slice_m0, M.clone_id = [], [], {}
+    for n in base_slice:
+        cs = sorted(consts.get(n, ())) if n in M.param_all else [None]
+        if len(cs) > 24:
+            raise ExtractError("%s: parameter-keyed function called with %d different constants" % (n, len(cs)))
+        for c in (cs or [0]):
+            M.clone_id[(n, c)] = len(M.slice)
+            M.slice.append(n)
+            M.slice_m0.append(c)
+    M.param_consts = {k: sorted(v) for k, v in consts.items()}
     # ---- nodes
-    fn_ids = {n: k for k, n in enumerate(M.slice)}
+    fn_ids = {}
+    for k, n in enumerate(M.slice):
+        fn_ids.setdefault(n, k)              # name -> first clone
     M.mode_relevant = _mode_relevant()
     capsrc = open(CAP_LEAN).read()
     M.mode_functions = dict(re.findall(r'\("(\w+)",\s*"([\w-]+)"\)', re.search(r'def modeFunctions[^\n]*', capsrc).group(0)))
@@ -530,25 +568,26 @@ def extract(build, ir_text=None):
     M.mode_tracked, M.mode_untracked, M.mask_tracked, M.assert_choices = [], [], [], []
     M.guard_tracked = []
     M.param_slot = {}
-    for pf in M.param_modes:
-        if pf not in fdefs:
-            raise ExtractError("Cap.paramModes: function %s does not exist" % pf)
     nodes = []            # (fn id, op tuple, succ node ids)   op: ('nop',) ('assert',m) ('libc',fn,name) ('call',g) ('havoc',why) ('ret',)
-    entry_of = {}
+    entry_of = []
     M.node_src = []       # parallel: (function, block label, text)
-    for name in M.slice:
+    seen_names = set()
+    for fidx, name in enumerate(M.slice):
         f = fdefs[name]
+        again = name in seen_names          # a further clone of a parameter-keyed function: same events, own nodes
+        seen_names.add(name)
+        marks = (len(M.mode_tracked), len(M.mode_untracked), len(M.mask_tracked), len(M.assert_choices))
         first = {}
         chains = []
         mode_ev = _mode_track(M, f)
-        mask_ev, var_asserts = _mask_track(M, f)
+        mask_ev, var_asserts = _mask_track(M, f, _param_fixed(f, M.param_auto[name]) if name in M.param_auto else None)
         guard_ev, guard_br = {}, {}
-        if name not in M.mode_functions and name not in M.param_modes:
+        if name not in M.mode_functions and name not in M.param_all:
             excl = set(v for n_, v in M.mode_tracked + M.mask_tracked if n_ == name)
             guard_ev, guard_br, ginfo = _guard_track(M, f, excl)
             if ginfo:
                 M.guard_tracked.append((name, ginfo))
-        if (mask_ev or var_asserts) and (name in M.mode_functions or name in M.param_modes):
+        if (mask_ev or var_asserts) and (name in M.mode_functions or name in M.param_all):
             raise ExtractError("%s: a tracked assert-mask variable next to another tracked variable kind" % name)
         if (1 if mode_ev else 0) + (1 if mask_ev or var_asserts else 0) + (1 if guard_ev else 0) > 1:
             # several variables packed in one word: an assignment keeps the other fields
@@ -557,12 +596,12 @@ def extract(build, ir_text=None):
         mode_ev = dict(mode_ev)
         mode_ev.update(mask_ev)
         mode_ev.update(guard_ev)
-        if name in M.param_modes:
+        if name in M.param_all:
             if mode_ev:
-                raise ExtractError("%s: Cap.paramModes function has a tracked local as well" % name)
+                raise ExtractError("%s: parameter-keyed function (Cap.paramModes / assert-forwarding helper) has a tracked local as well" % name)
             if name in M.escaping:
                 raise ExtractError("%s: Cap.paramModes function is address-taken (its parameter is not a constant)" % name)
-            M.param_slot[name] = _param_fixed(f, M.param_modes[name])
+            M.param_slot[name] = _param_fixed(f, M.param_all[name])
         for b in f.blocks:
             evs = []
             for i in b.insts:
@@ -578,14 +617,14 @@ def extract(build, ir_text=None):
             for op, txt in evs:
                 ent = len(nodes)
                 if op[0] == "choice":      # assert(c ? A : B): a fork (nop) to one assert node per constant; no condition modelled
-                    nodes.append([fn_ids[name], ("nop",), []])
+                    nodes.append([fidx, ("nop",), []])
                     M.node_src.append((name, b.label, txt))
                     heads, new_exits = [], []
                     for alt in op[1]:          # each alternative is a chain of ops
                         prev = None
                         for aop in alt:
                             cur_ = len(nodes)
-                            nodes.append([fn_ids[name], aop, []])
+                            nodes.append([fidx, aop, []])
                             M.node_src.append((name, b.label, txt))
                             if prev is None:
                                 heads.append(cur_)
@@ -595,7 +634,7 @@ def extract(build, ir_text=None):
                         new_exits.append(prev)
                     nodes[ent][2] = heads
                 else:
-                    nodes.append([fn_ids[name], op, []])
+                    nodes.append([fidx, op, []])
                     M.node_src.append((name, b.label, txt))
                     new_exits = [ent]
                 for a in exits:
@@ -611,14 +650,16 @@ def extract(build, ir_text=None):
                 targets = []
                 for (val, eq), s_ in zip(arms, b.succs):
                     targets.append(len(nodes))
-                    nodes.append([fn_ids[name], ("modeTest", field, val, eq), [first[s_]]])
+                    nodes.append([fidx, ("modeTest", field, val, eq), [first[s_]]])
                     M.node_src.append((name, b.label, b.term_text))
             for last in lasts:
                 nodes[last][2] = [] if nodes[last][1][0] == "ret" else list(targets)
-        entry_of[name] = first[f.blocks[0].label]
+        entry_of.append(first[f.blocks[0].label])
+        if again:                            # bookkeeping lists: one line per function, not per clone
+            del M.mode_tracked[marks[0]:], M.mode_untracked[marks[1]:], M.mask_tracked[marks[2]:], M.assert_choices[marks[3]:]
     M.nodes = nodes
     M.fn_ids = fn_ids
-    M.entries_of = [entry_of[n] for n in M.slice]
+    M.entries_of = entry_of
     # entry points: functions of the slice whose address escapes (registered cfunctions, method tables, callbacks)
     M.entry_fns = [n for n in M.slice if n in M.escaping]
     cfun_names = {}
@@ -931,7 +972,34 @@ def _assert_arg(f, b, i, pslot=None):
     raise ExtractError("janet_sandbox_assert with a non-constant argument in %s: %s" % (f.name, d[:100]))
 
 
-def _mask_track(M, f):
+def _auto_param(f):
+    """Index of the i32 parameter that `f` forwards to janet_sandbox_assert (`janet_sandbox_assert(cap)` where `cap` is a
+    parameter that is spilled once and never assigned), or None."""
+    found = set()
+    for b in f.blocks:
+        for i in b.insts:
+            if i.kind == "call" and i.callee == "janet_sandbox_assert" and (len(i.const_args) != 1 or i.const_args[0] is None):
+                try:
+                    r = _assert_arg(f, b, i)
+                except ExtractError:
+                    return None
+                if r[0] != "var":
+                    continue
+                for x in f.blocks[0].insts:
+                    m = re.match(r'store i32 %(\d+), i32\* ' + re.escape(r[1]) + r',', x.text)
+                    if m and int(m.group(1)) < f.params:
+                        found.add(int(m.group(1)))
+    if len(found) != 1:
+        return None
+    idx = found.pop()
+    try:
+        _param_fixed(f, idx)
+    except ExtractError:
+        return None
+    return idx
+
+
+def _mask_track(M, f, pslot=None):
     """Assert-mask variable of one function: `x = C0; x |= C1; if (..) x |= C2; janet_sandbox_assert(x)`.
     -> ({id(store inst): ('modeSet', c << SHIFT) | ('modeOr', c << SHIFT)}, {id(assert call inst)})"""
     sites = []
@@ -939,7 +1007,7 @@ def _mask_track(M, f):
         for i in b.insts:
             if i.kind == "call" and i.callee == "janet_sandbox_assert" and (len(i.const_args) != 1 or i.const_args[0] is None):
                 r = _assert_arg(f, b, i)
-                if r[0] == "var":
+                if r[0] == "var" and r[1] != pslot:          # (the forwarded parameter is handled in _events: assertMd 0)
                     sites.append((i, r[1]))
     if not sites:
         return {}, set()
@@ -1002,6 +1070,11 @@ def _events(M, fname, i, fn_ids, fdefs, blk=None, var_asserts=()):
                 evs.append((("assertMd", SHIFT), i.text))
             elif len(i.const_args) != 1 or i.const_args[0] is None:
                 r = _assert_arg(fdefs[fname], blk, i, M.param_slot.get(fname))   # raises ExtractError when it is not select/phi of constants
+                if r[0] == "var":
+                    if fname in M.param_auto and r[1] == M.param_slot.get(fname):
+                        evs.append((("assertMd", 0), i.text))        # the word of this activation IS the constant argument
+                        return evs
+                    raise ExtractError("janet_sandbox_assert with a non-constant argument in %s" % fname)
                 M.assert_choices.append((fname,) + tuple(r))
                 if r[0] == "pchoice":          # p ? A : B on the tracked parameter: two guarded arms
                     evs.append((("choice", [[("modeGuard", 0, False), ("assert", r[1])], [("modeGuard", 0, True), ("assert", r[2])]]), i.text))
@@ -1016,17 +1089,15 @@ def _events(M, fname, i, fn_ids, fdefs, blk=None, var_asserts=()):
         elif c in M.spawners:
             for r in i.refs:
                 if r in fn_ids:
-                    if r in M.param_modes:
-                        raise ExtractError("Cap.paramModes function %s is handed to a spawner" % r)
+                    if r in M.param_all:
+                        raise ExtractError("parameter-keyed function %s is handed to a spawner" % r)
                     evs.append((("call", fn_ids[r], 0), i.text))
         elif c in fn_ids:
-            m0 = 0
-            if c in M.param_modes:
-                ai = M.param_modes[c]
-                if ai >= len(i.const_args) or i.const_args[ai] is None or i.const_args[ai] < 0:
-                    raise ExtractError("%s: argument %d of %s (Cap.paramModes) is not a non-negative integer constant" % (fname, ai, c))
-                m0 = i.const_args[ai]
-            evs.append((("call", fn_ids[c], m0), i.text))
+            m0, target = 0, fn_ids[c]
+            if c in M.param_all:
+                m0 = i.const_args[M.param_all[c]]             # (checked to be a constant when the clones were made)
+                target = M.clone_id[(c, m0)]
+            evs.append((("call", target, m0), i.text))
         elif c in fdefs:
             if c in M.may_grow:
                 evs.append((("havoc", "call " + c), i.text))
@@ -1223,7 +1294,7 @@ def check(M, C):
             if op[0] == "libc":
                 for r in need(M, op[1], op[2], m):
                     if not _imp(r, k):
-                        bad.append(dict(kind="uncovered", fn=name, node=n, call=op[2], need=r, known=list(k), mode=m & LO_KEEP,
+                        bad.append(dict(kind="uncovered", fn=name, fnid=fn, node=n, call=op[2], need=r, known=list(k), mode=m & LO_KEEP,
                                         asserted_mask=(m >> SHIFT) & 0xFFFFFFFF, guards=m >> GUARD_SHIFT, reached=C.reached[n], src=M.node_src[n][2]))
     return bad
 
@@ -1239,7 +1310,7 @@ def uncovered_entries(M, C, bad):
     for b in bad:
         if b["kind"] != "uncovered":
             continue
-        f0 = M.fn_ids[b["fn"]]
+        f0 = b.get("fnid", M.fn_ids[b["fn"]])
         seen, todo, ents = {f0}, [f0], []
         while todo:
             f = todo.pop()
@@ -1377,6 +1448,7 @@ def render(M, C, origin="current tree"):
     table("mayGrowAt", "Bool", ["true" if x in M.may_grow else "false" for x in M.mod.order], "false", "program id n ∈ mayGrowIds (decision tree)")
     o.append("abbrev graph : Graph := ⟨%d, nodeAt, fnEntryAt, entryFns⟩\n" % len(M.nodes))
     o.append("-- functions whose open(2) flags / fopen mode variable is tracked: %s; untracked (mode 3 = both capabilities required): %s" % (M.mode_tracked, M.mode_untracked))
+    o.append("-- parameter-keyed functions, cloned per constant argument: %s (reviewed: %s; assert-forwarding helpers found: %s)" % (M.param_consts, sorted(M.param_modes), sorted(M.param_auto)))
     o.append("-- assert-mask variables tracked (bits %d.. of the word): %s; asserts on a select/phi of constants: %s" % (SHIFT, M.mask_tracked, M.assert_choices))
     o.append("-- guard variables (int locals assigned only constants, deciding a conditional branch; 8-bit fields from bit %d): %s" % (GUARD_SHIFT, M.guard_tracked))
     table("certK", "List Case", ["[" + ", ".join("(%d, %s)" % (m, _lnat_list(k)) for m, k in cs) + "]" for cs in C.K], "[]",
